@@ -37,9 +37,9 @@ Definition obs_rewards (st : state) (u : Z) : list Z :=
 Definition obs_share (v : ver) (st : state) (u : Z) : list Z :=
   match rewards_share v st u with Ok (g, w, s) => [0; g; w; s] | _ => [1] end.
 
-Definition obs_state (v : ver) (st : state) : list Z :=
+Definition obs_state_gen (ib : Z -> Z -> Z) (accounts : list Z) (v : ver) (st : state) : list Z :=
   [s_epoch st]
-  ++ flat_map (fun a => map (fun s => s_bal st a s - init_bal a s) ASSETS) OBS_ACCOUNTS
+  ++ flat_map (fun a => map (fun s => s_bal st a s - ib a s) ASSETS) accounts
   ++ [s_gw st; s_counter st]
   ++ flat_map (obs_user st) USERS
   ++ [optz (aget (s_epoch st) (s_snap st))]
@@ -47,14 +47,22 @@ Definition obs_state (v : ver) (st : state) : list Z :=
   ++ flat_map (obs_rewards st) USERS
   ++ flat_map (obs_share v st) USERS.
 
-Fixpoint run_ops (v : ver) (c : cfg) (st : state) (ops : list op) : list Z :=
+Definition obs_state := obs_state_gen init_bal OBS_ACCOUNTS.
+
+Fixpoint run_ops_gen (obs : ver -> state -> list Z) (v : ver) (c : cfg) (st : state) (ops : list op) : list Z :=
   match ops with
   | [] => []
   | o :: r => match step v c st o with
-              | Ok st' => 0 :: obs_state v st' ++ run_ops v c st' r
-              | _ => 1 :: obs_state v st ++ run_ops v c st r
+              | Ok st' => 0 :: obs v st' ++ run_ops_gen obs v c st' r
+              | _ => 1 :: obs v st ++ run_ops_gen obs v c st r
               end
   end.
+Definition run_ops := run_ops_gen obs_state.
+
+(* frontend-helper world: asset 10 is the pair's LP token (nobody holds any at the start); the helper's balances are observed *)
+Definition init_bal_h : Z -> Z -> Z := fun acct asset => if asset =? 10 then 0 else init_bal acct asset.
+Definition run_helper (i : cfg * list op) : list Z :=
+  let (c, ops) := i in run_ops_gen (obs_state_gen init_bal_h (OBS_ACCOUNTS ++ [HELPER])) v_fixed c (init_state 1 init_bal_h) ops.
 
 (* the code as repaired (what the theorems are about) *)
 Definition run_inc (i : cfg * list op) : list Z :=
